@@ -131,9 +131,12 @@ func newNode(n *Network, nodeID NodeID, consensusName string, pk *ecdsa.PrivateK
 	)
 	node.timeoutManager = newTimeoutManager(n, node, node.eventLoop, node.viewStates)
 	// necessary to count executed commands.
+	// recorded when the committer adds the event: the event queue is bounded and drops its oldest
+	// entries when full, and a node that catches up commits many blocks at once; a commit missing
+	// from this log would be reported as a safety violation.
 	eventloop.Register(node.eventLoop, func(commit hotstuff.CommitEvent) {
 		node.executedBlocks = append(node.executedBlocks, commit.Block)
-	})
+	}, eventloop.UnsafeRunInAddEvent())
 	commandGenerator := &commandGenerator{}
 	for range n.views {
 		cmd := commandGenerator.next()
